@@ -130,20 +130,23 @@ def e_uni(chk, thorough):
             for (p2, s2) in pos[1:]:
                 if all(p[:len(p2)] != p2 and p2[:len(p)] != p for p, _ in chosen) and len(chosen) < 2: chosen.append((p2, s2))
             sub_phi = phi; extra = {}
+            # label names: ordinary ones and every reserved word of the formula language (inside %..% they are just names)
+            fi = forms.index(phi)
+            LB = [['q0', 'q1'], ['1', 'true'], ['False', '0'], ['false', 'True'], ['EX', 'V'], ['q0', 'q1']][fi % 6 if fi < 24 else 0]
             occ = all_occurrences(phi, chosen[0][1])
             if len(occ) >= 2:
                 chosen = [chosen[0]]
-                for pth in occ: sub_phi = G.replace(sub_phi, pth, ('wild', 'q0'))
-                extra['q0'] = {'t': 'mc', 'f': S.show(S.normalise(chosen[0][1]))}
+                for pth in occ: sub_phi = G.replace(sub_phi, pth, ('wild', LB[0]))
+                extra[LB[0]] = {'t': 'mc', 'f': S.show(S.normalise(chosen[0][1]))}
             else:
               for i, (p, s) in enumerate(chosen):
-                sub_phi = G.replace(sub_phi, p, ('wild', f'q{i}')); extra[f'q{i}'] = {'t': 'mc', 'f': S.show(s)}
+                sub_phi = G.replace(sub_phi, p, ('wild', LB[i])); extra[LB[i]] = {'t': 'mc', 'f': S.show(s)}
             k = S.quant_depth(phi) or 1
             reps = 4 if phi in two_depths() else 0     # renaming maps iterate in a per-map random order: repeat the plain evaluation
             try: sess = UC.Session(inst, k, [{'phis': [phi], 'entry': 'ext_dirty'}, {'phis': [sub_phi], 'entry': 'ext_dirty'}, {'phis': [sub_phi], 'entry': 'ext'}] + [{'phis': [phi], 'entry': 'ext_dirty'}] * reps, extra_ctx=extra)
             except RuntimeError as e:
                 chk.obligation(f'C10/E-UNI {inst.name}: {S.show(sub_phi)}', 'E-UNI', 'inconclusive'); continue
-            name = f'C10/E-UNI {inst.name} k={k}: {S.show(phi)}  ==  {S.show(sub_phi)} with ' + ', '.join(f'%q{i}% := raw result of {S.show(s)}' for i, (p, s) in enumerate(chosen))
+            name = f'C10/E-UNI {inst.name} k={k}: {S.show(phi)}  ==  {S.show(sub_phi)} with ' + ', '.join(f'%{LB[i]}% := raw result of {S.show(s)}' for i, (p, s) in enumerate(chosen))
             a, b = sess.first(0), sess.first(1)
             if reps:
                 same = all(sess.first(3 + i_) == a for i_ in range(reps))
